@@ -4,8 +4,8 @@ CONSTANTS
   Types = {"A", "B"}
   MaxCalls = 2
   EarlyUnlock = FALSE
-  Registry = FALSE
-  Locked = TRUE
+  Registry = TRUE
+  Locked = FALSE
 INVARIANTS PublishedComplete OneEntryPerType UsesOwnCompleteCodec MutexHeldByBuilder NoLossWhenLocked IdentityStableWhenLocked
 PROPERTIES MapsImmutable
 CHECK_DEADLOCK FALSE
